@@ -306,7 +306,7 @@ fn run(op: &str, a: &[&str]) -> String {
         }
         // FBig -> f64 / f32.  `wide` is read through the public API: the base-2 conversion that
         // to_f64 (HalfEven, 53 bits) resp. to_f32 (own mode, 24 bits) performs internally hands over a
-        // significand with more bits than the target precision (open finding F05: debug builds then
+        // significand with more bits than the target precision (open finding F06: debug builds then
         // trip a debug assertion, release builds round a second time).  The conversions themselves
         // run under catch_unwind so that the class flag is reported by every build.
         "ftof64" => with_float!(a[0], a[1], |R, B| {
